@@ -1,11 +1,596 @@
 package main
 
-// placeholder until the int64 translator is written: generates an empty Int64Fns.lean
+// translate.go — literal translation of the straight-line int64 functions of the library into Lean (Gen/Int64Fns.lean).
+//
+// Supported Go: parameters and locals of type int64/bool; `:=`, `=`, `+=`, `-=`, `var x T [= e]`; if / else if / else;
+// return; integer and boolean operators; calls among the translated functions; the idioms
+//   int64(math.Pow(2, float64(e)))  and  int64(math.Pow(2, math.Abs(float64(e))))   (exact powers of two)
+//   v, err := f(…); if err != nil { return …, err }                                  (error propagation)
+//   err, ok := validateIndexExists(…); if !ok { return …, err }                      (ditto, through the bool)
+// Result types: int64 → Int; bool → Bool; (int64, error) → Outcome Int; (int64, int64, error) → Outcome (Int × Int);
+// (error, bool) → Bool (the error value carries no information beyond the bool); tuples of int64 → products.
+// Anything else makes the translator REFUSE the function: it then emits `def Gen.<name>_untranslatable : String := "<why>"`
+// and no definition, so that the tie theorem in Props/Tie.lean no longer compiles (a broken obligation, not a silent gap).
+
 import (
+	"fmt"
+	"go/ast"
+	"go/token"
 	"os"
 	"path/filepath"
+	"strings"
 )
 
+type target struct{ pkg, name string }
+
+var targets = []target{
+	{"common", "CalculateArithmeticShift"},
+	{"shape", "CheckZoom"},
+	{"transform", "quadkeyCheckZoom"},
+	{"transform", "extendedSpatialIDCheckZoom"},
+	{"transform", "validateIndexExists"},
+	{"transform", "convertZToMinAltitudekey"},
+	{"transform", "convertZToMaxAltitudekey"},
+	{"transform", "ConvertZToMinMaxAltitudekey"},
+	{"transform", "ConvertAltitudekeyToMinMaxZ"},
+	{"integrate", "HorizontalZoomMinMax"},
+	{"detector", "offsetFIndex"},
+}
+
+type retKind int
+
+const (
+	retInt retKind = iota
+	retBool
+	retOutInt   // (int64, error)
+	retOutPair  // (int64, int64, error)
+	retErrBool  // (error, bool) → Bool
+	retTuple    // (int64, …, int64)
+)
+
+type fnInfo struct {
+	kind  retKind
+	arity int // number of int64 components for retTuple / retOutPair
+}
+
+type translator struct {
+	consts  map[string]string // qualified or bare constant name → Lean integer expression
+	fns     map[string]fnInfo // translated function name → result kind
+	cur     fnInfo
+	named   []string // named results of the current function
+	bools   map[string]bool
+	errVars map[string]string // err variable → "call" (bound by let-else, so `if err != nil` is dead) or "ok:<var>"
+	fail    string
+}
+
+func (t *translator) failf(format string, a ...interface{}) {
+	if t.fail == "" {
+		t.fail = fmt.Sprintf(format, a...)
+	}
+}
+
+func typeStr(e ast.Expr) string { return exprStr(e) }
+
+func (t *translator) resultKind(fn *ast.FuncDecl) (fnInfo, bool) {
+	if fn.Type.Results == nil {
+		return fnInfo{}, false
+	}
+	var types []string
+	for _, f := range fn.Type.Results.List {
+		n := len(f.Names)
+		if n == 0 {
+			n = 1
+		}
+		for i := 0; i < n; i++ {
+			types = append(types, typeStr(f.Type))
+		}
+	}
+	allInt := func(ts []string) bool {
+		for _, s := range ts {
+			if s != "int64" {
+				return false
+			}
+		}
+		return true
+	}
+	switch {
+	case len(types) == 1 && types[0] == "int64":
+		return fnInfo{retInt, 1}, true
+	case len(types) == 1 && types[0] == "bool":
+		return fnInfo{retBool, 1}, true
+	case len(types) == 2 && types[0] == "int64" && types[1] == "error":
+		return fnInfo{retOutInt, 1}, true
+	case len(types) == 3 && types[0] == "int64" && types[1] == "int64" && types[2] == "error":
+		return fnInfo{retOutPair, 2}, true
+	case len(types) == 2 && types[0] == "error" && types[1] == "bool":
+		return fnInfo{retErrBool, 1}, true
+	case len(types) >= 2 && allInt(types):
+		return fnInfo{retTuple, len(types)}, true
+	}
+	return fnInfo{}, false
+}
+
+func leanRet(k fnInfo) string {
+	switch k.kind {
+	case retInt:
+		return "Int"
+	case retBool, retErrBool:
+		return "Bool"
+	case retOutInt:
+		return "Outcome Int"
+	case retOutPair:
+		return "Outcome (Int × Int)"
+	default:
+		return strings.TrimSuffix(strings.Repeat("Int × ", k.arity), " × ")
+	}
+}
+
+// ---- expressions -------------------------------------------------------------------------------------------------
+
+// isPow2Idiom recognises int64(math.Pow(2, float64(e))) and int64(math.Pow(2, math.Abs(float64(e))))
+func (t *translator) pow2Idiom(c *ast.CallExpr) (string, bool) {
+	if id, ok := c.Fun.(*ast.Ident); !ok || id.Name != "int64" || len(c.Args) != 1 {
+		return "", false
+	}
+	inner, ok := c.Args[0].(*ast.CallExpr)
+	if !ok || exprStr(inner.Fun) != "math.Pow" || len(inner.Args) != 2 || exprStr(inner.Args[0]) != "2" {
+		return "", false
+	}
+	arg := inner.Args[1]
+	abs := false
+	if ac, ok := arg.(*ast.CallExpr); ok && exprStr(ac.Fun) == "math.Abs" && len(ac.Args) == 1 {
+		abs = true
+		arg = ac.Args[0]
+	}
+	fc, ok := arg.(*ast.CallExpr)
+	if !ok || exprStr(fc.Fun) != "float64" || len(fc.Args) != 1 {
+		return "", false
+	}
+	e := t.intExpr(fc.Args[0])
+	if abs {
+		return "(pow2 ((" + e + ").natAbs : Int))", true
+	}
+	return "(pow2 (" + e + "))", true
+}
+
+func (t *translator) intExpr(e ast.Expr) string {
+	switch v := e.(type) {
+	case *ast.BasicLit:
+		if v.Kind == token.INT {
+			return v.Value
+		}
+	case *ast.Ident:
+		if c, ok := t.consts[v.Name]; ok {
+			return c
+		}
+		return v.Name
+	case *ast.ParenExpr:
+		return "(" + t.intExpr(v.X) + ")"
+	case *ast.SelectorExpr:
+		if c, ok := t.consts[exprStr(v)]; ok {
+			return c
+		}
+	case *ast.UnaryExpr:
+		if v.Op == token.SUB {
+			return "(-" + t.intExpr(v.X) + ")"
+		}
+	case *ast.BinaryExpr:
+		a, b := t.intExpr(v.X), t.intExpr(v.Y)
+		switch v.Op {
+		case token.ADD:
+			return "(" + a + " + " + b + ")"
+		case token.SUB:
+			return "(" + a + " - " + b + ")"
+		case token.MUL:
+			return "(" + a + " * " + b + ")"
+		case token.QUO:
+			return "(Int.tdiv " + a + " " + b + ")"
+		case token.REM:
+			return "(Int.tmod " + a + " " + b + ")"
+		case token.SHL:
+			return "(" + a + " * 2 ^ (" + b + ").toNat)"
+		case token.SHR:
+			return "(" + a + " >>> (" + b + ").toNat)"
+		}
+	case *ast.CallExpr:
+		if s, ok := t.pow2Idiom(v); ok {
+			return s
+		}
+		if id, ok := v.Fun.(*ast.Ident); ok && id.Name == "int64" && len(v.Args) == 1 {
+			return t.intExpr(v.Args[0])
+		}
+		name := exprStr(v.Fun)
+		if i := strings.LastIndex(name, "."); i >= 0 {
+			name = name[i+1:]
+		}
+		if k, ok := t.fns[name]; ok && k.kind == retInt {
+			args := make([]string, len(v.Args))
+			for i, a := range v.Args {
+				args[i] = t.intExpr(a)
+			}
+			return "(Gen." + name + " " + strings.Join(args, " ") + ")"
+		}
+	}
+	t.failf("unsupported integer expression %s", exprStr(e))
+	return "0"
+}
+
+// propExpr: a Go boolean expression as a decidable Lean proposition
+func (t *translator) propExpr(e ast.Expr) string {
+	switch v := e.(type) {
+	case *ast.ParenExpr:
+		return "(" + t.propExpr(v.X) + ")"
+	case *ast.Ident:
+		if v.Name == "true" {
+			return "True"
+		}
+		if v.Name == "false" {
+			return "False"
+		}
+		if t.bools[v.Name] {
+			return "(" + v.Name + " = true)"
+		}
+	case *ast.UnaryExpr:
+		if v.Op == token.NOT {
+			return "(¬ " + t.propExpr(v.X) + ")"
+		}
+	case *ast.BinaryExpr:
+		switch v.Op {
+		case token.LAND:
+			return "(" + t.propExpr(v.X) + " ∧ " + t.propExpr(v.Y) + ")"
+		case token.LOR:
+			return "(" + t.propExpr(v.X) + " ∨ " + t.propExpr(v.Y) + ")"
+		case token.LSS, token.LEQ, token.GTR, token.GEQ, token.EQL, token.NEQ:
+			op := map[token.Token]string{token.LSS: "<", token.LEQ: "≤", token.GTR: ">", token.GEQ: "≥", token.EQL: "=", token.NEQ: "≠"}[v.Op]
+			return "(" + t.intExpr(v.X) + " " + op + " " + t.intExpr(v.Y) + ")"
+		}
+	case *ast.CallExpr:
+		name := exprStr(v.Fun)
+		if i := strings.LastIndex(name, "."); i >= 0 {
+			name = name[i+1:]
+		}
+		if k, ok := t.fns[name]; ok && (k.kind == retBool) {
+			args := make([]string, len(v.Args))
+			for i, a := range v.Args {
+				args[i] = t.intExpr(a)
+			}
+			return "(Gen." + name + " " + strings.Join(args, " ") + " = true)"
+		}
+	}
+	t.failf("unsupported boolean expression %s", exprStr(e))
+	return "True"
+}
+
+// ---- statements --------------------------------------------------------------------------------------------------
+
+func isErrNilCheck(s ast.Stmt, errName string) bool {
+	ifs, ok := s.(*ast.IfStmt)
+	if !ok || ifs.Init != nil || ifs.Else != nil {
+		return false
+	}
+	if exprStr(ifs.Cond) != errName+" != nil" || len(ifs.Body.List) != 1 {
+		return false
+	}
+	r, ok := ifs.Body.List[0].(*ast.ReturnStmt)
+	if !ok || len(r.Results) == 0 {
+		return false
+	}
+	return exprStr(r.Results[len(r.Results)-1]) == errName
+}
+
+func isNotOkReturn(s ast.Stmt, okName string) bool {
+	ifs, ok := s.(*ast.IfStmt)
+	if !ok || ifs.Init != nil || ifs.Else != nil || exprStr(ifs.Cond) != "!"+okName || len(ifs.Body.List) != 1 {
+		return false
+	}
+	_, isRet := ifs.Body.List[0].(*ast.ReturnStmt)
+	return isRet
+}
+
+func (t *translator) returnStmt(r *ast.ReturnStmt, ind string) string {
+	res := r.Results
+	if len(res) == 0 { // bare return with named results
+		switch t.cur.kind {
+		case retOutPair:
+			return ind + "return .ok (" + t.named[0] + ", " + t.named[1] + ")\n"
+		}
+		t.failf("bare return in a function without named results")
+		return ""
+	}
+	switch t.cur.kind {
+	case retInt:
+		return ind + "return " + t.intExpr(res[0]) + "\n"
+	case retBool:
+		return ind + "return decide " + t.propExpr(res[0]) + "\n"
+	case retErrBool:
+		return ind + "return decide " + t.propExpr(res[1]) + "\n"
+	case retOutInt:
+		if exprStr(res[1]) == "nil" {
+			return ind + "return .ok " + t.intExpr(res[0]) + "\n"
+		}
+		return ind + "return .err\n"
+	case retOutPair:
+		if exprStr(res[2]) == "nil" {
+			return ind + "return .ok (" + t.intExpr(res[0]) + ", " + t.intExpr(res[1]) + ")\n"
+		}
+		return ind + "return .err\n"
+	default:
+		parts := make([]string, len(res))
+		for i, e := range res {
+			parts[i] = t.intExpr(e)
+		}
+		return ind + "return (" + strings.Join(parts, ", ") + ")\n"
+	}
+}
+
+func (t *translator) block(stmts []ast.Stmt, ind string, declared map[string]bool) string {
+	var sb strings.Builder
+	for i := 0; i < len(stmts); i++ {
+		s := stmts[i]
+		switch v := s.(type) {
+		case *ast.ReturnStmt:
+			sb.WriteString(t.returnStmt(v, ind))
+		case *ast.DeclStmt:
+			gd, ok := v.Decl.(*ast.GenDecl)
+			if !ok || gd.Tok != token.VAR {
+				t.failf("unsupported declaration")
+				continue
+			}
+			for _, sp := range gd.Specs {
+				vs := sp.(*ast.ValueSpec)
+				for j, n := range vs.Names {
+					if vs.Type != nil && typeStr(vs.Type) == "bool" {
+						t.bools[n.Name] = true
+						val := "false"
+						if len(vs.Values) > j {
+							val = "decide " + t.propExpr(vs.Values[j])
+						}
+						sb.WriteString(ind + "let mut " + n.Name + " : Bool := " + val + "\n")
+					} else if vs.Type == nil || typeStr(vs.Type) == "int64" {
+						val := "0"
+						if len(vs.Values) > j {
+							val = t.intExpr(vs.Values[j])
+						}
+						sb.WriteString(ind + "let mut " + n.Name + " : Int := " + val + "\n")
+					} else if typeStr(vs.Type) == "error" {
+						// an error variable: carries no information in the model
+					} else {
+						t.failf("unsupported variable type %s", typeStr(vs.Type))
+					}
+					declared[n.Name] = true
+				}
+			}
+		case *ast.AssignStmt:
+			// multi-value call: v, err := f(…)   /   err, ok := validateIndexExists(…)   /   _, ok = …
+			if len(v.Rhs) == 1 {
+				if call, ok := v.Rhs[0].(*ast.CallExpr); ok && len(v.Lhs) >= 2 {
+					name := exprStr(call.Fun)
+					if k := strings.LastIndex(name, "."); k >= 0 {
+						name = name[k+1:]
+					}
+					info, known := t.fns[name]
+					args := make([]string, len(call.Args))
+					for k, a := range call.Args {
+						if id, isId := a.(*ast.Ident); isId && (id.Name == "true" || id.Name == "false") {
+							args[k] = id.Name
+						} else {
+							args[k] = t.intExpr(a)
+						}
+					}
+					callStr := "Gen." + name + " " + strings.Join(args, " ")
+					if known && info.kind == retOutInt && len(v.Lhs) == 2 {
+						val, errName := exprStr(v.Lhs[0]), exprStr(v.Lhs[1])
+						if i+1 < len(stmts) && isErrNilCheck(stmts[i+1], errName) {
+							sb.WriteString(ind + "let .ok " + val + " := " + callStr + " | return .err\n")
+							declared[val] = true
+							i++ // the `if err != nil { return …, err }` is now dead
+							continue
+						}
+						t.failf("call of %s not followed by `if %s != nil { return …, %s }`", name, errName, errName)
+						continue
+					}
+					if known && info.kind == retErrBool && len(v.Lhs) == 2 {
+						okName := exprStr(v.Lhs[1])
+						if i+1 < len(stmts) && isNotOkReturn(stmts[i+1], okName) {
+							sb.WriteString(ind + "if ¬ (" + callStr + " = true) then\n")
+							sb.WriteString(t.block(stmts[i+1].(*ast.IfStmt).Body.List, ind+"  ", declared))
+							i++
+							continue
+						}
+						t.failf("call of %s not followed by `if !%s { return … }`", name, okName)
+						continue
+					}
+					t.failf("unsupported multi-value assignment from %s", name)
+					continue
+				}
+			}
+			if len(v.Lhs) != 1 || len(v.Rhs) != 1 {
+				t.failf("unsupported assignment %s", exprStr(v.Lhs[0]))
+				continue
+			}
+			name := exprStr(v.Lhs[0])
+			isBool := t.bools[name]
+			rhs := ""
+			if isBool {
+				rhs = "decide " + t.propExpr(v.Rhs[0])
+			} else {
+				rhs = t.intExpr(v.Rhs[0])
+			}
+			switch v.Tok {
+			case token.DEFINE:
+				sb.WriteString(ind + "let mut " + name + " : Int := " + rhs + "\n")
+				declared[name] = true
+			case token.ASSIGN:
+				sb.WriteString(ind + name + " := " + rhs + "\n")
+			case token.ADD_ASSIGN:
+				sb.WriteString(ind + name + " := " + name + " + " + rhs + "\n")
+			case token.SUB_ASSIGN:
+				sb.WriteString(ind + name + " := " + name + " - " + rhs + "\n")
+			default:
+				t.failf("unsupported assignment operator")
+			}
+		case *ast.IfStmt:
+			if v.Init != nil {
+				// `if _, ok := f(…); !ok { return … }`
+				as, ok := v.Init.(*ast.AssignStmt)
+				if ok && len(as.Lhs) == 2 && len(as.Rhs) == 1 {
+					if call, isCall := as.Rhs[0].(*ast.CallExpr); isCall {
+						name := exprStr(call.Fun)
+						if k := strings.LastIndex(name, "."); k >= 0 {
+							name = name[k+1:]
+						}
+						if info, known := t.fns[name]; known && info.kind == retErrBool && exprStr(v.Cond) == "!"+exprStr(as.Lhs[1]) && v.Else == nil {
+							args := make([]string, len(call.Args))
+							for k, a := range call.Args {
+								if id, isId := a.(*ast.Ident); isId && (id.Name == "true" || id.Name == "false") {
+									args[k] = id.Name
+								} else {
+									args[k] = t.intExpr(a)
+								}
+							}
+							sb.WriteString(ind + "if ¬ (Gen." + name + " " + strings.Join(args, " ") + " = true) then\n")
+							sb.WriteString(t.block(v.Body.List, ind+"  ", declared))
+							continue
+						}
+					}
+				}
+				t.failf("unsupported if-initialiser")
+				continue
+			}
+			sb.WriteString(ind + "if " + t.propExpr(v.Cond) + " then\n")
+			sb.WriteString(t.block(v.Body.List, ind+"  ", declared))
+			switch el := v.Else.(type) {
+			case nil:
+			case *ast.BlockStmt:
+				sb.WriteString(ind + "else\n")
+				sb.WriteString(t.block(el.List, ind+"  ", declared))
+			case *ast.IfStmt:
+				sb.WriteString(ind + "else\n")
+				sb.WriteString(t.block([]ast.Stmt{el}, ind+"  ", declared))
+			}
+		default:
+			t.failf("unsupported statement at line %d", fset.Position(s.Pos()).Line)
+		}
+	}
+	if sb.Len() == 0 {
+		sb.WriteString(ind + "pure ()\n")
+	}
+	return sb.String()
+}
+
+func (t *translator) function(fn *ast.FuncDecl, info fnInfo) string {
+	t.cur = info
+	t.bools = map[string]bool{}
+	t.named = nil
+	t.fail = ""
+	var params []string
+	for _, f := range fn.Type.Params.List {
+		ty := typeStr(f.Type)
+		for _, n := range f.Names {
+			switch ty {
+			case "int64":
+				params = append(params, "("+n.Name+" : Int)")
+			case "bool":
+				params = append(params, "("+n.Name+" : Bool)")
+				t.bools[n.Name] = true
+			default:
+				t.failf("unsupported parameter type %s", ty)
+			}
+		}
+	}
+	var pre strings.Builder
+	if fn.Type.Results != nil {
+		for _, f := range fn.Type.Results.List {
+			for _, n := range f.Names {
+				if typeStr(f.Type) == "int64" {
+					t.named = append(t.named, n.Name)
+					pre.WriteString("  let mut " + n.Name + " : Int := 0\n")
+				}
+			}
+		}
+	}
+	body := t.block(fn.Body.List, "  ", map[string]bool{})
+	name := fn.Name.Name
+	if t.fail != "" {
+		return fmt.Sprintf("/-- NOT TRANSLATED: %s -/\ndef %s_untranslatable : String := %s\n\n", t.fail, name, leanStr(t.fail))
+	}
+	// silence "unused mutable" by a final reference is unnecessary: Lean only warns
+	return fmt.Sprintf("/-- literal translation of `%s` (%s) -/\ndef %s %s : %s := Id.run do\n%s%s\n",
+		name, filepath.Base(fset.Position(fn.Pos()).Filename), name, strings.Join(params, " "), leanRet(info), pre.String(), body)
+}
+
+// constant table: every package-level integer constant whose value is an integer literal or a shift/arithmetic of others
+func collectConsts(pkgs []*pkgInfo) (map[string]string, []string) {
+	vals := map[string]string{}
+	var lines []string
+	tr := &translator{consts: vals, fns: map[string]fnInfo{}, bools: map[string]bool{}}
+	for _, p := range pkgs {
+		short := filepath.Base(p.name)
+		for _, f := range p.files {
+			for _, d := range f.Decls {
+				gd, ok := d.(*ast.GenDecl)
+				if !ok || gd.Tok != token.CONST {
+					continue
+				}
+				for _, sp := range gd.Specs {
+					vs := sp.(*ast.ValueSpec)
+					for i, n := range vs.Names {
+						if i >= len(vs.Values) {
+							continue
+						}
+						tr.fail = ""
+						switch vs.Values[i].(type) {
+						case *ast.BasicLit:
+							if vs.Values[i].(*ast.BasicLit).Kind != token.INT {
+								continue
+							}
+						}
+						e := tr.intExpr(vs.Values[i])
+						if tr.fail != "" {
+							continue
+						}
+						vals[n.Name] = "(" + e + ")"
+						vals[short+"."+n.Name] = "(" + e + ")"
+						lines = append(lines, fmt.Sprintf("/-- `%s.%s` -/\ndef const_%s_%s : Int := %s", short, n.Name, short, n.Name, e))
+					}
+				}
+			}
+		}
+	}
+	return vals, lines
+}
+
 func genFns(pkgs []*pkgInfo, out string) {
-	os.WriteFile(filepath.Join(out, "Int64Fns.lean"), []byte("/- GENERATED by /verif/extract — do not edit. -/\nnamespace SpatialId.Gen\nend SpatialId.Gen\n"), 0o644)
+	consts, constLines := collectConsts(pkgs)
+	t := &translator{consts: consts, fns: map[string]fnInfo{}, bools: map[string]bool{}}
+	// locate the targets, in order (callees first)
+	decls := map[string]*ast.FuncDecl{}
+	for _, p := range pkgs {
+		for _, f := range p.files {
+			for _, d := range f.Decls {
+				if fn, ok := d.(*ast.FuncDecl); ok && fn.Recv == nil {
+					decls[filepath.Base(p.name)+"."+fn.Name.Name] = fn
+				}
+			}
+		}
+	}
+	var sb strings.Builder
+	sb.WriteString("/- GENERATED by /verif/extract from the Go source of the repository — do not edit. -/\nimport SpatialId.Basic\nnamespace SpatialId.Gen\nopen SpatialId\n\n")
+	sb.WriteString(strings.Join(constLines, "\n") + "\n\n")
+	for _, tg := range targets {
+		fn, ok := decls[tg.pkg+"."+tg.name]
+		if !ok {
+			sb.WriteString(fmt.Sprintf("/-- NOT FOUND in the source -/\ndef %s_untranslatable : String := \"function %s.%s no longer exists\"\n\n", tg.name, tg.pkg, tg.name))
+			continue
+		}
+		info, ok := t.resultKind(fn)
+		if !ok {
+			sb.WriteString(fmt.Sprintf("/-- NOT TRANSLATED: unsupported result type -/\ndef %s_untranslatable : String := \"unsupported result type\"\n\n", tg.name))
+			continue
+		}
+		t.fns[tg.name] = info
+		sb.WriteString(t.function(fn, info))
+	}
+	sb.WriteString("end SpatialId.Gen\n")
+	os.WriteFile(filepath.Join(out, "Int64Fns.lean"), []byte(sb.String()), 0o644)
 }
